@@ -332,3 +332,6 @@ def run(ctx):
     round5.check_type_formats(ctx, "R18.7")
     round5.share(ctx, "R18.7", "C08", lambda i_: i_["rule"] == "R8.2" and (":push-pop" in i_["inst"] or "one-enter-one-leave" in i_["inst"]),
                  "pair:", "a listed event is rejected in a context where it is legal", 100)
+    ctx.rule("R18.8", "ovnidump's decode buffer holds the longest description plus the longest label a model accepts")
+    from rules import round6
+    round6.check_dump_buffer_fits(ctx, "R18.8")
